@@ -424,4 +424,6 @@ def _adapter(spec, raw, tail):
 SUBS += [Sub(f"fuzz:{t}", run_blocks, kind="fuzz", fuzz_target=("spec", t, _adapter), budget=(0, 40000), shards=(1, 2),
              rule=f"Atheris/libFuzzer, library instrumented: bytes -> {t} spec via the reference decoder; every don't-care byte then overwritten "
                   "by a filler chosen from the input's tail; same metamorphic oracle") for t in specs.TYPES if t not in ("data2D", "calib")]
+from ..core import optimised_child_sub  # noqa: E402
+SUBS.append(optimised_child_sub("C12", ["filler-matrix"]))
 TIME_BUDGET = {"quick": 150, "thorough": 1500}
